@@ -1,11 +1,159 @@
-import Unsized.MachineLemmas
-/-! # C06 — property theorems (under construction; see notes/C01_machine.md) -/
-namespace Unsized.C06
-open Common Unsized Unsized.Machine
+import Unsized.MachineAtomic
+import Unsized.Props.C01
+/-!
+# C06 — A failed mutation never corrupts, and single-container operations are atomic
 
-/-- A refused or over-limit growth leaves the bytes untouched. -/
-theorem addBytes_err_bytes (m : Mem) (start amount : Nat) (e : Err) (m' : Mem)
-    (h : m.addBytes start amount = (m', .error e)) : m'.bytes = m.bytes ∧ m'.orig = m.orig :=
-  Unsized.Machine.addBytes_err_bytes m start amount e m' h
+Model: the resize machine of C01 (`Unsized/Machine*.lean`, executed by `c06_model`) with the fault
+oracle of `Mem` (`refuse` = the growing reallocs that are refused; growth beyond `orig + 10240` is
+refused too; shrinking never is). All statements are for EVERY refusal schedule.
+-/
+namespace Unsized.C06
+open Common Unsized Unsized.Text Unsized.Machine
+
+/-
+FULL STATEMENT (`err_atomic`): for every op that resizes one container and every refusal schedule,
+`applyOp … = (m', .error _)` implies `m'.bytes = m.bytes` (hence `len`), `m'.orig = m.orig`.
+It is FALSE of the current code for `UnsizedList::insert` / `UnsizedMap::insert` with a fallible element
+initialiser (`ulist_init_fail_witness`, `set_data_inner_init_fail_witness` below — registered known
+findings). Proved for all `Supported` non-composite ops (every op on `fixed`/`list`/`rem`/`struct`/`enum`
+nodes and `replace`/`reset` on every node kind, at any nesting depth). Missing: `set`/`map` single
+inserts/removes and `ulist`/`umap` insert/remove with infallible initialisers (byte algebra not done yet).
+-/
+
+/-- **Atomicity**: a covered single-container op that returns an error — index/range out of bounds,
+prefix overflow, growth refused by the schedule or beyond `orig + 10240` — leaves bytes, length,
+`orig` and the schedule exactly as they were. For EVERY refusal schedule. -/
+theorem err_atomic_partial (s : Shape) (v : Val) (hok : s.ok = true) (hwf : WF s v = true) (m : Mem)
+    (hm : m.bytes = encode s v) (hsmall : m.orig + maxIncrease < Shape.u32Lim)
+    (hlen : m.bytes.length ≤ m.orig + maxIncrease) (p : List Step) (op : Op)
+    (hsup : ∀ t u, resolve s v p = .ok (t, u) → Supported t op = true) (hnc : composite op = false)
+    (m' : Mem) (e : Err) (h : applyOp s p op m = (m', .error e)) :
+    m'.bytes = m.bytes ∧ m'.bytes.length = m.bytes.length ∧ m'.orig = m.orig ∧ m'.refuse = m.refuse := by
+  simp only [WF, Bool.and_eq_true] at hwf
+  obtain ⟨h1, h2, h3⟩ := applyOp_atomic s v ⟨⟨true, false, hok⟩, hwf.1, hwf.2⟩ m hm ⟨hsmall, hlen⟩ p op hsup hnc m' e h
+  exact ⟨h1, by rw [h1], h2, h3⟩
+
+/-
+FULL STATEMENT (`err_canonical`): for EVERY op (incl. composite ones), on `err` the state still
+satisfies "canonical encoding of some `WF` value with matching length". Proved for the covered ops;
+for the composite `str_set` the value is the old string or the empty string.
+-/
+
+/-- **No corruption**: after an error of a covered op the buffer is still the canonical serialization
+(with exact length) of a well-formed value of the type. -/
+theorem err_canonical_partial (s : Shape) (v : Val) (hok : s.ok = true) (hwf : WF s v = true) (m : Mem)
+    (hm : m.bytes = encode s v) (hsmall : m.orig + maxIncrease < Shape.u32Lim)
+    (hlen : m.bytes.length ≤ m.orig + maxIncrease) (p : List Step) (op : Op)
+    (hsup : ∀ t u, resolve s v p = .ok (t, u) → Supported t op = true)
+    (m' : Mem) (e : Err) (h : applyOp s p op m = (m', .error e)) :
+    ∃ v', WF s v' = true ∧ m'.bytes = encode s v' ∧ m'.bytes.length = size s v' := by
+  simp only [WF, Bool.and_eq_true] at hwf
+  have g : Good s v := ⟨⟨true, false, hok⟩, hwf.1, hwf.2⟩
+  by_cases hnc : composite op = false
+  · obtain ⟨h1, _, _⟩ := applyOp_atomic s v g m hm ⟨hsmall, hlen⟩ p op hsup hnc m' e h
+    exact ⟨v, by simp [WF, hwf], by rw [h1, hm], by rw [h1, hm, encode_size_all s v hwf.1]⟩
+  · -- composite: only `str_set` is covered
+    have hloc := locate_encode p s v g [] [] 0 rfl
+    simp only [List.nil_append, List.append_nil, Nat.zero_add] at hloc
+    unfold applyOp at h
+    rw [hm, hloc] at h
+    cases hr : resolve s v p with
+    | error e' =>
+      rw [hr] at h; simp only [] at h; cases h
+      exact ⟨v, by simp [WF, hwf], hm, by rw [hm, encode_size_all s v hwf.1]⟩
+    | ok tu =>
+      obtain ⟨t, u⟩ := tu
+      rw [hr] at h
+      simp only [] at h
+      have F : Focus s v p t u m := ⟨g, hr, hm⟩
+      have hs := hsup t u hr
+      have same : ∀ {m'' : Mem} {e' : Err}, (m, (Except.error e' : Except Err Ret)) = (m'', .error e) →
+          ∃ v', WF s v' = true ∧ m''.bytes = encode s v' ∧ m''.bytes.length = size s v' := by
+        intro m'' e' hh; cases hh
+        exact ⟨v, by simp [WF, hwf], hm, by rw [hm, encode_size_all s v hwf.1]⟩
+      cases op <;> simp [composite] at hnc
+      · -- sinsertAll: not a covered node kind
+        simp only [Supported, genericOp, Bool.or_false] at hs
+        have hv := F.sub.valid
+        cases t <;> simp [coveredShape] at hs <;> simp only [applyAt] at h <;> exact same h
+      · simp only [Supported, genericOp, Bool.or_false] at hs
+        have hv := F.sub.valid
+        cases t <;> simp [coveredShape] at hs <;> simp only [applyAt] at h <;> exact same h
+      · simp only [Supported, genericOp, Bool.or_false] at hs
+        have hv := F.sub.valid
+        cases t <;> simp [coveredShape] at hs <;> simp only [applyAt] at h <;> try exact same h
+        -- str
+        cases u <;> simp only [valid, Bool.false_eq_true] at hv
+        split at h
+        · obtain ⟨F', _, _, _⟩ := strSet_err_canonical F ⟨hsmall, hlen⟩ _ m' e (unitRes_err_inv h)
+          exact ⟨_, by simp [WF, F'.good.valid, F'.good.fits], F'.bytes,
+            by rw [F'.bytes, encode_size_all _ _ F'.good.valid]⟩
+        · exact same h
+
+/-! ## The known findings, as kernel-checked witnesses on the model of the code that exists -/
+
+/-- Did the call fail with class `e`? -/
+def failedWith (r : Mem × Except Err Ret) (e : Err) : Bool :=
+  match r.2 with
+  | .error e' => e' == e
+  | .ok _ => false
+
+/-- A fresh buffer holding `encode s v` with refusal schedule `refuse`. -/
+def fresh (s : Shape) (v : Val) (refuse : List Nat) : Mem := ⟨encode s v, (encode s v).length, 0, refuse⟩
+
+def w1S : Shape := .ulist (.list (.pod 1) 1)
+def w1V : Val := .useq [.seq [[1], [2]], .seq [[3]]]
+/-- `UnsizedList<List<u8,u8>>` = `[[1,2],[3]]`, `push([0u8; 256])`: the call returns an error, but the
+buffer grew by 261 bytes and `len` says 3 (initialiser runs after the resize and header rewrite).
+Hence `err_atomic` at full strength is false of the current code
+(known finding `ulist_insert_init_fails_after_resize`). -/
+theorem ulist_init_fail_witness :
+    failedWith (applyOp w1S [] (.uinsertArr 2 (List.replicate 256 [0])) (fresh w1S w1V [])) .initFail = true
+    ∧ (applyOp w1S [] (.uinsertArr 2 (List.replicate 256 [0])) (fresh w1S w1V [])).1.bytes.length
+        = (fresh w1S w1V []).bytes.length + 261
+    ∧ rd32 (applyOp w1S [] (.uinsertArr 2 (List.replicate 256 [0])) (fresh w1S w1V [])).1.bytes 4 = 3 := by
+  decide +kernel
+
+def w2S : Shape := .umap 1 (.list (.pod 1) 1)
+def w2V : Val := .umap [([5], .seq [[1]]), ([9], .seq [[2], [3]])]
+/-- `UnsizedMap<u8, List<u8,u8>>` = `{5: [1], 9: [2,3]}`, `insert(5, [0u8; 256])` (existing key →
+`set_from_init`): error after the element was already resized by 255 bytes
+(known finding `set_data_inner_init_fails_after_resize`). -/
+theorem set_data_inner_init_fail_witness :
+    failedWith (applyOp w2S [] (.uminsertArr [5] (List.replicate 256 [0])) (fresh w2S w2V [])) .initFail = true
+    ∧ (applyOp w2S [] (.uminsertArr [5] (List.replicate 256 [0])) (fresh w2S w2V [])).1.bytes.length
+        = (fresh w2S w2V []).bytes.length + 255 := by
+  decide +kernel
+
+def w3S : Shape := .map 1 (.pod 1) 1
+/-- `Map<u8,u8,u8>` = `{5: 1}`, `insert_all([(1,10),(2,11),(3,12)])` with the 2nd growth refused: error,
+but the first entry is in — the bytes are canonical for `{1: 10, 5: 1}` (`err_canonical` holds,
+`err_atomic` does not; known finding `map_set_insert_all_partial`). -/
+theorem map_insert_all_partial_witness :
+    failedWith (applyOp w3S [] (.minsertAll [([1], [10]), ([2], [11]), ([3], [12])]) (fresh w3S (.seq [[5, 1]]) [2]))
+      .realloc = true
+    ∧ (applyOp w3S [] (.minsertAll [([1], [10]), ([2], [11]), ([3], [12])]) (fresh w3S (.seq [[5, 1]]) [2])).1.bytes
+        = encode w3S (.seq [[1, 10], [5, 1]]) := by
+  decide +kernel
+
+/-- `UnsizedString<u32>` = `"hi"`, `set("hello")` with the growth refused: error, and the string is
+empty (known finding `unsized_string_set_partial`). -/
+theorem str_set_partial_witness :
+    failedWith (applyOp (.str 4) [] (.strSet [104, 101, 108, 108, 111]) (fresh (.str 4) (.bytes [104, 105]) [1]))
+      .realloc = true
+    ∧ (applyOp (.str 4) [] (.strSet [104, 101, 108, 108, 111]) (fresh (.str 4) (.bytes [104, 105]) [1])).1.bytes
+        = encode (.str 4) (.bytes []) := by
+  decide +kernel
+
+/-! ## Non-vacuity -/
+
+/-- A refused growth at depth 3 (struct → ulist → struct → list): the hypotheses of
+`err_atomic_partial` hold and the op indeed fails with `InvalidRealloc`. -/
+example : Unsized.C01.exS.ok = true ∧ WF Unsized.C01.exS Unsized.C01.exV = true
+    ∧ failedWith (applyOp Unsized.C01.exS [.field 1, .elem 0, .field 0] (.push [9])
+        (fresh Unsized.C01.exS Unsized.C01.exV [1])) .realloc = true := by
+  decide +kernel
+
+example : Supported (.list (.pod 1) 1) (.push [9]) = true ∧ composite (.push [9]) = false := by decide
 
 end Unsized.C06
